@@ -150,6 +150,11 @@ def edgeBias (t : List SRow) (margin : Int) : List Rat :=
   ((t.map (·.chrom)).eraseDups).flatMap fun c =>
     edgeBiasChrom ((t.filter (·.chrom == c)).map (fun r => (r.s, r.e))) margin
 
+/-- smallest positive difference between two values of a list (1 if none) -/
+def minPosGap (l : List Rat) : Rat :=
+  let s := l.mergeSort (· ≤ ·)
+  ((s.zip (s.drop 1)).map (fun p => p.2 - p.1)).foldl (fun m d => if d > 0 && d < m then d else m) 1
+
 /-! ### one class of bins (targets or antitargets) -/
 
 structure FixCfg where
@@ -164,9 +169,9 @@ deriving Repr, Inhabited
     Returns the corrected sample rows and the matched reference rows, position-aligned after
     `alignRef`. `corrected` tells whether a correction re-sorted the sample. -/
 def loadAdjust (samp : List SRow) (ref : List RRow) (skipLow fixGc fixEdge fixRmask : Bool)
-    (par : Option String) (perm : List Nat) (wing : Nat) :
-    Except FixErr (List SRow × List RRow) :=
-  if samp.isEmpty then .ok ([], []) else
+    (par : Option String) (perm : List Nat) (wing : Nat) (edgeKeys : Option (List Rat) := none) :
+    Except FixErr (List SRow × List RRow × Rat) :=
+  if samp.isEmpty then .ok ([], [], 1) else
   let samp := sortS samp
   match matchRef ref samp with
   | .error e => .error e
@@ -176,13 +181,23 @@ def loadAdjust (samp : List SRow) (ref : List RRow) (skipLow fixGc fixEdge fixRm
     let rf := refM.filter (fun r => !badBin r)
     let cn1 := centerS skipLow par cn0
     let nOk := (cn1.filter (fun r => decide (r.log2 > Generated.NULL_LOG2_COVERAGE - Generated.MIN_REF_COVERAGE))).length
-    if nOk ≤ cn1.length / 2 then .ok (cn1, rf) else
+    if nOk ≤ cn1.length / 2 then .ok (cn1, rf, 1) else
     let cn2 := if fixGc && rf.all (·.gc.isSome) && !rf.isEmpty then
         centerByWindow perm wing cn1 (rf.map (fun r => r.gc.getD 0)) else cn1
-    let cn3 := if fixEdge then centerByWindow perm wing cn2 (edgeBias cn2 Generated.INSERT_SIZE) else cn2
+    -- sort keys of the edge correction: the exact formula, or (when supplied) the doubles numpy computed
+    -- for it, so that ties / near-ties are ordered as in the real run
+    let ekeys := match edgeKeys with
+      | some ks => if ks.length == cn2.length then ks else edgeBias cn2 Generated.INSERT_SIZE
+      | none => edgeBias cn2 Generated.INSERT_SIZE
+    let cn3 := if fixEdge then centerByWindow perm wing cn2 ekeys else cn2
     let cn4 := if fixRmask && rf.all (·.rmask.isSome) && !rf.isEmpty then
         centerByWindow perm wing cn3 (rf.map (fun r => r.rmask.getD 0)) else cn3
-    .ok (cn4, rf)
+    -- knife-edge indicator: smallest positive gap between two edge-bias sort keys (computed in floats by the code)
+    -- largest deviation of the supplied float keys from the exact edge-bias formula
+    let exact := edgeBias cn2 Generated.INSERT_SIZE
+    let slack := if fixEdge && ekeys.length == exact.length then
+        ((ekeys.zip exact).map (fun p => absR (p.1 - p.2))).foldl max 0 else 0
+    .ok (cn4, rf, slack)
 
 /-! ### weights -/
 
@@ -219,6 +234,7 @@ structure FixParams where
   sqrtSize : List ((String × Int × Int) × Rat)   -- numpy sqrt(end - start) by bin coordinates
   varT : Rat
   varA : Rat
+  edgeKeysT : Option (List Rat) := none
 deriving Repr, Inhabited
 
 structure FixOut where
@@ -229,8 +245,8 @@ deriving Repr, Inhabited
 /-- `do_fix` (do_cluster = False) -/
 def doFix (tgt anti : List SRow) (ref : List RRow) (cfg : FixCfg) (P : FixParams) :
     Except FixErr (List FixOut) := do
-  let (cnT, rfT) ← loadAdjust tgt ref true cfg.gc cfg.edge false cfg.par P.permT P.wingT
-  let (cnA, rfA) ← loadAdjust anti ref false cfg.gc false cfg.rmask cfg.par P.permA P.wingA
+  let (cnT, rfT, _) ← loadAdjust tgt ref true cfg.gc cfg.edge false cfg.par P.permT P.wingT P.edgeKeysT
+  let (cnA, rfA, _) ← loadAdjust anti ref false cfg.gc false cfg.rmask cfg.par P.permA P.wingA
   let rows := if cnA.isEmpty then cnT else sortS (cnT ++ cnA)
   let refs := if cnA.isEmpty then rfT else sortR (rfT ++ rfA)
   let sub := (rows.zip refs).map fun p => { p.1 with log2 := p.1.log2 - p.2.log2 }
@@ -238,5 +254,11 @@ def doFix (tgt anti : List SRow) (ref : List RRow) (cfg : FixCfg) (P : FixParams
   let ws := applyWeights ((sub.zip refs).map fun p => (p.1, p.2, sq p.1)) P.varT P.varA
   let final := centerS true cfg.par sub
   pure ((final.zip ws).map fun p => { row := p.1, weight := p.2 })
+
+/-- largest deviation of the supplied edge-bias doubles from the exact formula (must be ~1e-16) -/
+def doFixSlack (tgt : List SRow) (ref : List RRow) (cfg : FixCfg) (P : FixParams) : Rat :=
+  match loadAdjust tgt ref true cfg.gc cfg.edge false cfg.par P.permT P.wingT P.edgeKeysT with
+  | .ok (_, _, s) => s
+  | .error _ => 0
 
 end CnvVerif
